@@ -128,6 +128,7 @@ class RndOps(T.ScalarOps):
     c = cur()
     q = c.fresh_int("rint")
     c.assume(SBool(z3.And(z3.ToReal(q) - v.z <= z3.RealVal("1/2"), v.z - z3.ToReal(q) <= z3.RealVal("1/2"))))
+    c.ghost.setdefault("rounded_rnd", []).append(v)
     return SRnd(z3.ToReal(q))
 
   def truth(self, v):
